@@ -76,4 +76,50 @@ PROPS = {
         trusted_base=COMMON_TRUST + ["harness reference (refjson.rs) for the lenient surrogate policy"],
         assumptions=[],
     ),
+
+    "C13": dict(
+        tables=["print"],
+        determined=True,
+        technique="Lean 4 theorem P by mutual structural induction: the two-phase printer (size pre-computation + emission) equals the documented layout for all values, option records and indentations; byte-for-byte differential execution against the model and an independent reference printer",
+        level_text=("FULL proof on the model. Theorem C13_layout: for every value, every option record and every starting indentation the code's two-phase printer (model of pre_compute_size / fmt_with_size, "
+                    "including the sizes[*index] bookkeeping, which is proved never to go out of bounds) outputs exactly specPrint, the documented layout written directly (one line iff all children are and "
+                    "the one-line form respects the item/width limit, width = number of characters printed, *_empty spacing for empty containers, otherwise one child per line at depth*unit). "
+                    "C13_width: the measured width is the printed width. C13_nolimit + C13_presets (on the presets regenerated from the source): inline/compact never add a line break. "
+                    "The model is tied to the code by byte-for-byte comparison of real output, model output and an independent reference printer over generated values x option records "
+                    "(every numeric field 0..3, Spaces 0..4/Tabs 0..2, every Limit variant with thresholds straddling the actual widths) and a full grid on a fixed value."),
+        level_note="Trusted: Lean kernel; hand-written model of src/print/mod.rs validated by correspondence each run; extractor for the three presets; fmt::Formatter = string concatenation.",
+        rule=("request = option record + value; reply = printed text. Values generated from the repo's value type (controls, quotes, non-BMP, duplicate/empty keys, nesting <= 5), options as described; "
+              "non-trivial = output is multi-line or longer than 6 chars; distinct request lines. distribution.array_object_spacing_differs / expanded_output show how many cases exercised the distinguishing conditions"),
+        strength="full on the model (theorem P); model-to-code tie by differential execution",
+        trusted_base=COMMON_TRUST + ["harness reference printer (harness/src/print.rs), written from the documentation"],
+        assumptions=["numbers print as their stored text (Display of NumberBuf)"],
+    ),
+    "C08": dict(
+        tables=["print"],
+        determined=True,
+        technique="Lean 4 theorem: compact printing = reference serializer (corollary of theorem P specialised to the regenerated compact preset) + escaping table lemma; exhaustive sweep of Unicode scalars through the four API routes",
+        level_text=("FULL proof on the model. C08_compact: for every value, printing with the compact preset (regenerated from Options::compact() on every run and proved to have every spacing 0 and no limit) "
+                    "equals refSerialize, the direct RFC 8785-style serializer (no whitespace, ',' ':' separators, numbers verbatim, strings minimally escaped); C08_escape gives the per-character escaping table "
+                    "(\\\" \\\\ \\b \\t \\n \\f \\r, lowercase \\u00xx below U+0020, everything else raw). Tie to the code: byte-for-byte comparison of compact_print, Display, to_string and String::from with the model and with an "
+                    "independent reference serializer for every scalar value below U+3000 and every 3rd above as a one-character string and key (thorough: every scalar), plus generated nested values."),
+        level_note="Trusted: Lean kernel; model validated by correspondence; preset extractor.",
+        rule="request = compact/other preset + value (one-character strings/keys for every scalar in the sweep; generated values); non-trivial as C13; distinct request lines",
+        strength="full on the model; tie by differential execution",
+        trusted_base=COMMON_TRUST + ["harness reference serializer"],
+        assumptions=[],
+    ),
+    "C04": dict(
+        tables=["print", "parse"],
+        determined=True,
+        technique="Lean 4 theorems: printer = documented layout (theorem P) and every layout is the value's token sequence interleaved with JSON whitespace only; round trip through the real parser checked on every generated case (direct oracle) and through the model",
+        level_text=("PARTIAL proof. Proved in Lean for every value, option record and indentation: printing never panics and its output is exactly the token sequence of the value (the sequence the compact serializer concatenates) "
+                    "with spaces/tabs/line feeds inserted between tokens only (C04_only_whitespace_partial, C04_compact_is_tokens) — i.e. options only ever change insignificant whitespace. "
+                    "The re-parse clause parse(print(v)) = v (C04_full) needs the completeness half of the parser-vs-grammar theorem, which is not yet proved; it is checked on the real code for every generated value x option record "
+                    "(direct oracle: strict parse_str of the real output equals the original value incl. order, duplicates, strings, number spellings) and the printed text is compared byte-for-byte with the model."),
+        level_note="Trusted: Lean kernel; models of printer and parser validated by correspondence; the round trip itself is tested, not proved.",
+        rule="as C13; every case additionally re-parsed by the real strict parser",
+        strength="partial: whitespace-only + no-panic proved; round trip tested",
+        trusted_base=COMMON_TRUST,
+        assumptions=["values carry valid JSON numbers (enforced by NumberBuf::new; new_unchecked is unsafe)"],
+    ),
 }
